@@ -152,6 +152,12 @@ READ_CASES = [
     ("#CRTFv0\nannulus[[10:00:00.0, +20.00.00.0], [3arcsec, 6arcsec]], coord=J2000\n",
      lambda rs: type(rs[0]).__name__ == 'CircleAnnulusSkyRegion' and abs(rs[0].center.ra.deg - 150) < 1e-9
      and abs(rs[0].center.dec.deg - 20) < 1e-9 and abs(rs[0].outer_radius.to_value(u.arcsec) - 6) < 1e-9),
+    ("#CRTFv0\ncircle[[00:02:00.0, -000.30.00.0], 3arcsec], coord=J2000\ncircle[[-000.15.00.0deg, -01.30.00.0], 3arcsec], coord=GALACTIC\n",
+     lambda rs: abs(rs[0].center.ra.deg - 0.5) < 1e-9 and abs(rs[0].center.dec.deg + 0.5) < 1e-9
+     and abs(rs[1].center.b.deg + 1.5) < 1e-9),
+    ("#CRTFv0\ncircle[[0.5rad, -0.25rad], 2arcmin], coord=ICRS\nline[[10deg, -0.5deg], [11deg, +0.5deg]], coord=J2000\n",
+     lambda rs: abs(rs[0].center.ra.rad - 0.5) < 1e-12 and abs(rs[0].center.dec.rad + 0.25) < 1e-12
+     and abs(rs[0].radius.to_value(u.arcmin) - 2) < 1e-9 and abs(rs[1].start.dec.deg + 0.5) < 1e-12 and abs(rs[1].end.dec.deg - 0.5) < 1e-12),
     ("#CRTFv0\ncircle[[10deg, 20deg], 3], coord=J2000\n", 'error'),        # lengths require units
     ("#CRTFv0\nhexagon[[10deg, 20deg], 3arcsec]\n", 'error'),
 ]
